@@ -143,10 +143,10 @@ theorem mpApply_view (old new : List TPath) (ho : KeysNodup old) (hn : KeysNodup
   have hUn : KeysNodup (mpUpdate old new) := tE_sub hUsub hn
   have hW := mpWithdraw_is_set_difference old new ho
   show (match (mpUpdate old new).find? (fun n => (n.src, n.rid) == k) with
-      | some n => some n.cost
+      | some n => some n.val
       | none => if (mpWithdraw old new).any (fun o => (o.src, o.rid) == k) then none
-          else (old.find? (fun n => (n.src, n.rid) == k)).map (·.cost))
-    = (new.find? (fun n => (n.src, n.rid) == k)).map (·.cost)
+          else (old.find? (fun n => (n.src, n.rid) == k)).map (·.val))
+    = (new.find? (fun n => (n.src, n.rid) == k)).map (·.val)
   cases hN : new.find? (fun n => (n.src, n.rid) == k) with
   | some n =>
     have hnm := List.mem_of_find?_eq_some hN
@@ -188,7 +188,7 @@ theorem mpApply_view (old new : List TPath) (ho : KeysNodup old) (hn : KeysNodup
       rw [hU]
       simp only [hWa]
       rw [hkey, tE_find_key old ho o hom]
-      have : n.cost = o.cost := by simpa only [TPath.attrEq, beq_iff_eq] using hoa
+      have : n.val = o.val := by simpa only [TPath.attrEq, beq_iff_eq] using hoa
       simp [this]
   | none =>
     have hNn := List.find?_eq_none.mp hN
